@@ -631,7 +631,24 @@ def views(seq, obs):
     return out
 
 
+def runaway(seq, obs):
+    """a call stopped by the recorder: every property of the retry loop bounds the work of one call (at most max_attempts
+    invocations, one sleep per granted retry, one hook call per event)"""
+    for j, (call, o) in enumerate(zip(seq["calls"], obs)):
+        if o["delivery"] and o["delivery"][0] == "runaway":
+            kinds = {}
+            for e in o["trace"]:
+                kinds[e[0]] = kinds.get(e[0], 0) + 1
+            o["trace"] = o["trace"][:60] + [["...", len(o["trace"])]]
+            return (f"call #{j} ({call['entry']}.{call['mode']}{' async' if call['async'] else ''}): more than {o['delivery'][1]} observable "
+                    f"actions in one call with max_attempts={seq['policies'][call['policy']].get('max_attempts')} (by kind: {kinds}); stopped by the recorder")
+    return None
+
+
 def check_seq(pid, seq, obs):
+    m = runaway(seq, obs)
+    if m:
+        return m
     f = ORACLES[pid]
     for j, v in enumerate(views(seq, obs)):
         try:
